@@ -1,0 +1,41 @@
+//go:build verif
+
+package bcache
+
+import "math"
+
+// Verification hooks (build tag verif only; add-only, nothing here is reachable from a normal build).
+
+// VerifEntry is a copy of one stored Iterator.
+type VerifEntry[V any] struct {
+	Value  V
+	Expire int64
+}
+
+// VerifNode is one node of the deadline index, in list order.
+type VerifNode[K comparable] struct {
+	Key   K
+	Score float64
+}
+
+// VerifSweep runs, synchronously, exactly the function the sentinel ticker would run on a tick
+// (deleteExpire unless SetSentinelFn replaced it).
+func (c *BCache[K, V]) VerifSweep() {
+	c.config.setSentinelFn()
+}
+
+// VerifDump returns a read-only copy of the member map and of the deadline index (level-0 order of the
+// zset skip list), taken under the cache lock.
+func (c *BCache[K, V]) VerifDump() (map[K]VerifEntry[V], []VerifNode[K]) {
+	c.Lock()
+	defer c.Unlock()
+	mem := make(map[K]VerifEntry[V])
+	c.member.ForEach(func(k K, it Iterator[V]) {
+		mem[k] = VerifEntry[V]{Value: it.Value, Expire: it.Expire}
+	})
+	var vis []VerifNode[K]
+	for _, n := range c.visit.RangeByScore(-math.MaxFloat64, math.MaxFloat64) {
+		vis = append(vis, VerifNode[K]{Key: n.Value, Score: n.Score})
+	}
+	return mem, vis
+}
